@@ -73,6 +73,76 @@ Fixpoint zero_of (t : ftype) : fval :=
   | TStruct fs => FStruct (map (fun nt : bytes * ftype => (fst nt, zero_of (snd nt))) fs)
   end.
 
+(* ---- struct tags and the tag argument mapper=<tag key> ---------------------------------- *)
+
+(* Field types as declared in Go: a struct field carries its Go name and its struct tags (tag key, tag text), e.g.
+   MaxConn int `yaml:"max_conn" json:"maxConn,omitempty"`.  Property.Unmarshall builds a FRESH decoder
+   configuration per call with TagName = "yaml" and overwrites it with the tag argument  mapper=<key>  of the property
+   being bound (component_definition/property.go: newDecodeConfig, unmarshallArgTagName); mapstructure then names a
+   field by  strings.SplitN(field.Tag.Get(TagName), ",", 2)[0]  if that is non-empty, else by its Go name
+   (decodeStructFromMap).  [erase] is that choice: which decoder a property gets depends on ITS OWN mapper argument
+   only - never on what was bound before it, in this or an earlier start of the process. *)
+Inductive gtype : Type :=
+| GString
+| GBool
+| GInt (bits : Z)
+| GUint (bits : Z)
+| GFloat (bits : Z)
+| GAny
+| GPtr (t : gtype)
+| GSlice (t : gtype)
+| GMap (t : gtype)
+| GStruct (fs : list (bytes * list (bytes * bytes) * gtype)).   (* Go name, struct tags (key, text), type *)
+
+Definition lit_yaml : bytes := [121;97;109;108]%N.
+Definition lit_mapstructure : bytes := [109;97;112;115;116;114;117;99;116;117;114;101]%N.
+Definition lit_mapper_arg : bytes := [44;109;97;112;112;101;114;61]%N.          (* ",mapper=" *)
+
+(* reflect.StructTag.Get *)
+Fixpoint tag_get (key : bytes) (tags : list (bytes * bytes)) : bytes :=
+  match tags with
+  | [] => []
+  | (k, text) :: r => if beqb k key then text else tag_get key r
+  end.
+
+(* the name mapstructure matches configuration keys against *)
+Definition match_name (tagkey go : bytes) (tags : list (bytes * bytes)) : bytes :=
+  match fst (split_first b_comma (tag_get tagkey tags)) with
+  | [] => go
+  | n => n
+  end.
+
+(* DecoderConfig.TagName of the decoder that binds a property: "yaml" unless the property's own tag says
+   mapper=<key>; an empty TagName is mapstructure's default "mapstructure" (NewDecoder) *)
+Definition decoder_tag (mapper : option bytes) : bytes :=
+  match mapper with
+  | None => lit_yaml
+  | Some [] => lit_mapstructure
+  | Some m => m
+  end.
+
+Fixpoint erase (tagkey : bytes) (g : gtype) {struct g} : ftype :=
+  match g with
+  | GString => TString
+  | GBool => TBool
+  | GInt b => TInt b
+  | GUint b => TUint b
+  | GFloat b => TFloat b
+  | GAny => TAny
+  | GPtr t => TPtr (erase tagkey t)
+  | GSlice t => TSlice (erase tagkey t)
+  | GMap t => TMap (erase tagkey t)
+  | GStruct fs =>
+    TStruct ((fix go (fs : list (bytes * list (bytes * bytes) * gtype)) : list (bytes * ftype) :=
+                match fs with
+                | [] => []
+                | (n, tags, t) :: r => (match_name tagkey n tags, erase tagkey t) :: go r
+                end) fs)
+  end.
+
+(* the field type a property is decoded into *)
+Definition bound_type (mapper : option bytes) (g : gtype) : ftype := erase (decoder_tag mapper) g.
+
 (* ---- numbers ---------------------------------------------------------------------------- *)
 
 (* float64(z) in the decimal abstraction: the normalised decimal of an integer *)
@@ -473,6 +543,11 @@ Definition bind_formatted (fx : bool) (v : cval) (T : ftype) : res fval :=
   rbind (format_cfg fx v) (fun text => bind_value text T).
 
 Definition ph (key : bytes) : bytes := b_dollar :: b_lbrace :: key ++ [b_rbrace].
+
+(* key[:default] - the body of a placeholder that carries a default, ${key:default}, and the prop shorthand
+   prop:"key:default"; the default is for keys that are [absent] (Placeholder.v) *)
+Definition key_dflt (key : bytes) (dflt : option bytes) : bytes :=
+  match dflt with Some d => key ++ b_colon :: d | None => key end.
 
 (* the callback handed to ReplaceAllContent is Placeholder.resolve, whose first argument is the variant of the
    tree at hand; the name of earlier rounds is kept as an abbreviation *)
